@@ -507,4 +507,42 @@ def check_C09(cx):
     return finish(cx)
 
 
-CHECKS = {"C09": check_C09, "C01": check_C01, "C02": check_C02, "C05": check_C05, "C06": check_C06, "C11": check_C11, "C18": check_C18}
+def check_C10(cx):
+    cx.build()
+    quick = cx.tier == "quick"
+    inv = ["TypeOK", "C10_Snapshot", "C10_Exclusive", "C01_NoDup"]
+    mcs = [("q1", cfg({"W1": W("W1", "Wv"), "W2": W("CW1")}, qsize=1, until=True, trackbufs=True)),
+           ("q2nb", cfg({"W1": W("W1", "CWv"), "W2": W("M")}, qsize=2, until=False, trackbufs=True))]
+    if not quick:
+        mcs += [("q2close", cfg({"W1": W("W1", "Wv"), "W2": W("CW1")}, {"C1": "e1"}, qsize=2, until=True, trackbufs=True)),
+                ("q1rf", cfg({"W1": W("RF::2"), "W2": W("MV")}, qsize=1, until=True, trackbufs=True))]
+    for name, c in mcs:
+        mc_and_replay_cex(cx, "MC" + name, c, inv, what="C10 snapshot/exclusive with pool users scribbling, " + name)
+    # anti-vacuity: the two ways the code could get it wrong must violate the invariants in the specification
+    for label, kw, expect in [("no-clone", {"clone": False}, "C10_Snapshot"), ("recycle-before-writev", {"recyclelate": False}, "C10_")]:
+        c0 = cfg({"W1": W("W1"), "W2": W("Wv")}, qsize=1, until=True, trackbufs=True, **kw)
+        res = model_check(cx.wd, "MCmut" + label.replace("-", ""), c0, ["C10_Snapshot", "C10_Exclusive"])
+        cx.add_mc(res, c0, "self-test: specification mutant '%s' must violate C10" % label)
+        cx.selftests["spec_mutant_" + label] = res["violated"]
+        if not res["violated"] or not res["violated"].startswith(expect):
+            raise Inconclusive("self-test failed: specification mutant %s does not violate %s (got %s)" % (label, expect, res["violated"]))
+    graphs = [("gq1", cfg({"W1": W("W1"), "W2": W("Wv")}, qsize=1, until=True, trackbufs=True))]
+    for name, c in graphs:
+        st = replay_graph(cx, name, c, max_paths=300 if quick else None, sizes=[1024, 1025, 2048, 100, 4096])
+        log("  replay %s: %s" % (name, st))
+    # all entry points and size classes under load, callers overwrite their buffers right after every call,
+    # the pool is scribbled on after every step
+    big = [
+        ("r4q2", cfg({"W1": W("W1", "Wv", "CW1"), "W2": W("Wv", "WW", "M"), "W3": W("CW1", "CWv"), "W4": W("MV", "MB")}, qsize=2, until=True, trackbufs=True)),
+        ("r3q8", cfg({"W1": W("W1", "Wv", "CW1"), "W2": W("Wv", "RF::2", "M"), "W3": W("CW1", "MR::2")}, qsize=8, until=True, trackbufs=True)),
+        ("r3q1c", cfg({"W1": W("W1", "Wv"), "W2": W("Wv", "WW"), "W3": W("CW1", "CWv")}, {"C1": "e1"}, qsize=1, until=True, trackbufs=True)),
+        ("r3sync", cfg({"W1": W("W1", "Wv"), "W2": W("Wv", "WW", "M"), "W3": W("CW1", "CWv")}, qsize=0, trackbufs=True)),
+    ]
+    n = 40 if quick else 400
+    for name, c in big:
+        random_runs(cx, name, c, n, policies=("drain", "window", "uniform", "pct"), sizes=NZ_SIZES)
+    cx.assume.append("pool scribbling relies on GOMAXPROCS(1) and disabled GC so that a recycled buffer is what the next Get of its class returns")
+    return finish(cx)
+
+
+CHECKS = {"C10": check_C10, "C09": check_C09, "C01": check_C01, "C02": check_C02, "C05": check_C05, "C06": check_C06, "C11": check_C11, "C18": check_C18}
